@@ -1,5 +1,7 @@
 import ApolloModel.Model.Guards
 import ApolloModel.Proofs.Guards
+import ApolloModel.Proofs.GuardsSchema
+import ApolloModel.Proofs.DirectiveSearch
 /-
 C21 — The compiler never panics on adversarial input.
 
@@ -150,5 +152,126 @@ example : (walk ⟨0, 0, 2⟩ (.node (.node (.node .leaf .leaf) .leaf) .leaf)).2
 example : (walk ⟨0, 0, 3⟩ (.node (.node (.node .leaf .leaf) .leaf) .leaf)).2 = false := by decide
 -- (a test, evaluated by the compiler: `mergeSort` is defined by well-founded recursion)
 #guard (sortDiagnostics [(some (2, 5), "b"), (none, "x"), (some (1, 9), "a"), (some (2, 5), "c")]).map (·.2) == ["x", "a", "b", "c"]
+
+end Apollo.C21
+
+/-! ### the other cycle detectors on a `RecursionStack`: input objects and directive definitions
+
+`FindRecursiveInputValue` (validation/input_object.rs) and `FindRecursiveDirective` (validation/directive.rs) are
+modelled for C14 in Model/SchemaValidation.lean; Model/GuardsSchema.lean adds the ghosts (`high` of each
+`RecursionStack`, deepest call `dhigh`) without changing the answers (`*_search_refines`), so C14's correspondence
+stream covers the instrumented functions too. Both recursions are bounded by the name stacks alone: unlike the
+fragment detector nothing is nested between two pushes except a constant number of frames (one model frame = at
+most two Rust frames), so the call depth is a linear function of the limit (32), whatever the schema. -/
+
+namespace Apollo.C21
+open Apollo.SchemaValidation Apollo.GuardsSchema
+
+theorem coh_iff {σ : Type} {F : σ → Prop} {r : R × σ} (h : Coh F r) : r.1 = .limit ↔ F r.2 := by
+  rcases h with ⟨h1, h2⟩ | ⟨h1, h2⟩
+  · exact ⟨fun _ => h2, fun _ => h1⟩
+  · exact ⟨fun h => absurd h h1, fun h => absurd h h2⟩
+
+/-- the instrumented input-object search answers exactly like C14's model of `FindRecursiveInputValue::check` -/
+theorem input_search_refines (g : IGraph) (limit r : Nat) : (checkInputG g limit r).1 = checkInput g limit r :=
+  checkInputG_fst g limit r
+
+/-- the `RecursionStack` of the input-object search never holds more than limit + 1 names, for every schema -/
+theorem input_search_stack_bound (g : IGraph) (limit r : Nat) (hl : 1 ≤ limit) :
+    (checkInputG g limit r).2.high ≤ limit + 1 :=
+  (searchFieldsG_bounds g limit (limit + 1) (limit + 1) (Nat.le_refl _) _ _ _ _ _ (by simpa using hl) (by omega)
+    ⟨by simp, by simp⟩).1
+
+/-- its call depth never exceeds limit + 1 model frames (`input_object_definition` + `input_value_definition` each:
+    at most 2·(limit + 1) Rust frames), for every schema: a function of the limit, not of the schema -/
+theorem input_search_depth_bound (g : IGraph) (limit r : Nat) (hl : 1 ≤ limit) :
+    (checkInputG g limit r).2.dhigh ≤ limit + 1 :=
+  (searchFieldsG_bounds g limit (limit + 1) (limit + 1) (Nat.le_refl _) _ _ _ _ _ (by simpa using hl) (by omega)
+    ⟨by simp, by simp⟩).2
+
+/-- it terminates on every schema, cyclic ones included: the model's fuel (= the depth bound) is never what ends it -/
+theorem input_search_terminates (g : IGraph) (limit r : Nat) : (checkInputG g limit r).1 ≠ .outOfFuel := by
+  rw [input_search_refines]
+  exact search_fuel g limit (limit + 1) [r] (g.fields r) (by simp) (by simp)
+
+/-- exceeding the limit yields the limit answer (`CycleError::Limit` → the `DeeplyNestedType` diagnostic), and only
+    that does: the search answers `limit` iff its stack ever held more than `limit` names -/
+theorem input_search_limit_yields_diagnostic (g : IGraph) (limit r : Nat) :
+    (checkInputG g limit r).1 = .limit ↔ limit < (checkInputG g limit r).2.high :=
+  coh_iff (searchFieldsG_coh g limit _ _ _ _ _ (by simp))
+
+theorem directive_search_refines (s : DSchema) (limit d : Nat) : (checkDirectiveG s limit d).1 = checkDirective s limit d :=
+  checkDirectiveG_fst s limit d
+
+theorem directive_search_bounds (s : DSchema) (limit d : Nat) (hl : 1 ≤ limit) :
+    DGB (limit + 1) (4 * limit + 5) (checkDirectiveG s limit d).2 :=
+  firstErrG_inv _ (DGB (limit + 1) (4 * limit + 5)) _
+    (fun y _ st hst => walkG_bounds s limit _ _ (Nat.le_refl _) _ _ _ _ y st (by simpa using hl) (by simp) (by omega) hst)
+    _ ⟨by simp, by simp, by simp⟩
+
+/-- neither `RecursionStack` of the directive search (directive names, type names) ever holds more than limit + 1 names -/
+theorem directive_search_stack_bound (s : DSchema) (limit d : Nat) (hl : 1 ≤ limit) :
+    (checkDirectiveG s limit d).2.highD ≤ limit + 1 ∧ (checkDirectiveG s limit d).2.highT ≤ limit + 1 :=
+  ⟨(directive_search_bounds s limit d hl).1, (directive_search_bounds s limit d hl).2.1⟩
+
+/-- its call depth never exceeds 4·limit + 5 model frames (two stacks of at most limit names, an argument frame
+    between two pushes), for every schema -/
+theorem directive_search_depth_bound (s : DSchema) (limit d : Nat) (hl : 1 ≤ limit) :
+    (checkDirectiveG s limit d).2.dhigh ≤ 4 * limit + 5 :=
+  (directive_search_bounds s limit d hl).2.2
+
+/-- it terminates on every schema -/
+theorem directive_search_terminates (s : DSchema) (limit d : Nat) : (checkDirectiveG s limit d).1 ≠ .outOfFuel := by
+  rw [directive_search_refines]
+  intro h
+  unfold checkDirective at h
+  obtain ⟨y, hy, hwy⟩ := firstErr_err (by decide) h
+  obtain ⟨a, _, rfl⟩ := List.mem_map.mp hy
+  refine walk_fuel s limit _ [d] [] (.arg a) ?_ hwy
+  simp only [need, isArg, List.length_singleton, List.length_nil]
+  omega
+
+/-- it answers `limit` (→ `DeeplyNestedType`) iff one of its two stacks ever held more than `limit` names -/
+theorem directive_search_limit_yields_diagnostic (s : DSchema) (limit d : Nat) :
+    (checkDirectiveG s limit d).1 = .limit ↔
+      (limit < (checkDirectiveG s limit d).2.highD ∨ limit < (checkDirectiveG s limit d).2.highT) :=
+  coh_iff (firstErrG_coh _ (Over limit) _ (fun y _ st hst => walkG_coh s limit _ _ _ _ y st hst) _ (by simp [Over]))
+
+-- Non-vacuity: chains (4 input objects I0 → I1 → I2 → I3 by `T!` fields), open or closed, limit 3 / 4
+#guard (checkInputG [[⟨true, 1⟩], [⟨true, 2⟩], [⟨true, 3⟩], []] 3 0) == (.limit, ⟨4, 3⟩)
+#guard (checkInputG [[⟨true, 1⟩], [⟨true, 2⟩], [⟨true, 3⟩], []] 4 0) == (.ok, ⟨4, 4⟩)
+#guard (checkInputG [[⟨true, 1⟩], [⟨true, 2⟩], [⟨true, 3⟩], [⟨true, 0⟩]] 4 0).1 == .recursed
+#guard (checkInputG [[⟨true, 1⟩], [⟨true, 2⟩], [⟨true, 3⟩], [⟨true, 0⟩]] 3 0).1 == .limit
+#guard (checkInputG [[⟨true, 1⟩], [⟨false, 0⟩, ⟨true, 1⟩]] 32 1).1 == .recursed
+-- directives: @d0(a: T0), input T0 { f: Int @d1 }, @d1(a: T1), input T1 { f: Int @d0 }: a cycle through two types
+#guard (checkDirectiveG ⟨[[⟨[], some 0⟩], [⟨[], some 1⟩]], [⟨.input, [], [], [⟨[1], none⟩]⟩, ⟨.input, [], [], [⟨[0], none⟩]⟩]⟩ 32 0).1 == .recursed
+#guard (checkDirectiveG ⟨[[⟨[], some 0⟩], [⟨[], some 1⟩]], [⟨.input, [], [], [⟨[1], none⟩]⟩, ⟨.input, [], [], [⟨[0], none⟩]⟩]⟩ 1 0).1 == .limit
+#guard (checkDirectiveG ⟨[[⟨[], some 0⟩], [⟨[], some 1⟩]], [⟨.input, [], [], [⟨[1], none⟩]⟩, ⟨.input, [], [], []⟩]⟩ 32 0) == (.ok, ⟨2, 2, 7⟩)
+
+/-! ### the selection walkers of operation / variable validation (`DepthCounter` with limit 500 + a `HashSet` of
+    fragments already entered)
+
+`wsList`/`wsSel` (Model/GuardsSchema.lean) model `walk_selections_with_deduped_fragments` (validation/variable.rs;
+validation/operation.rs has walkers of the same shape) on documents with named fragments, cyclic ones included. The
+model is accepted by Lean through the measure `(dlimit + 1 - depth, size of the selection)`: the walk terminates on
+every document because of the `DepthGuard` alone (the `seen` set only saves work). The model is not tied to the code
+by a correspondence stream of its own (its only observable is the limit diagnostic, which other walkers with the same
+limit emit too); the adversarial families `sel-depth`, `inline-depth`, `var-deep`, `frag-*` exercise it around 500. -/
+
+/-- the walk never nests deeper than dlimit + 1 frames, for every document -/
+theorem selection_walk_depth_bound (doc : Apollo.Guards.Doc) (dlimit : Nat) (sels : List Apollo.Guards.Sel) :
+    (walkSelections doc dlimit sels).2.dhigh ≤ dlimit + 1 :=
+  ((ws_all doc dlimit).1 0 ⟨[], 0, 0⟩ sels (Nat.zero_le _) (by simp)).1
+
+/-- it answers `RecursionLimitError` (→ the limit diagnostic) exactly when it tried to enter a frame beyond the limit -/
+theorem selection_walk_limit_yields_diagnostic (doc : Apollo.Guards.Doc) (dlimit : Nat) (sels : List Apollo.Guards.Sel) :
+    (walkSelections doc dlimit sels).1 = true ↔ dlimit < (walkSelections doc dlimit sels).2.dhigh :=
+  ((ws_all doc dlimit).1 0 ⟨[], 0, 0⟩ sels (Nat.zero_le _) (by simp)).2 (by simp)
+
+-- a cycle of two fragments is walked once; three nested fields exceed a limit of 2
+#guard (walkSelections [(0, [.spread 1, .nested []]), (1, [.spread 0])] 500 [.spread 0]).1 == false
+#guard (walkSelections [(0, [.spread 1, .nested []]), (1, [.spread 0])] 500 [.spread 0]).2.visited == 4
+#guard (walkSelections [] 2 [.nested [.nested [.nested []]]]).1 == true
+#guard (walkSelections [] 3 [.nested [.nested [.nested []]]]).1 == false
 
 end Apollo.C21
